@@ -720,9 +720,22 @@ pub fn gen_c13<W: Write>(w: &mut W, tier: &str, seed: u64) {
             continue;
         }
         let ks: Vec<usize> = if steps <= 150 || tier == "thorough" { (1..steps.min(1500)).collect() } else { (0..40).map(|_| 1 + rng.below(steps.max(2) - 1)).collect() };
+        // earlier session history must not matter: a failed direct statement, a refused CONT, a direct STOP or a
+        // finished run before the interrupted one (they all leave a saved continuation address behind)
+        let pre: Vec<String> = match rng.below(6) {
+            0 => vec!["CONT".into()],
+            1 => vec!["PRINT Q(11)".into()],
+            2 => vec!["STOP".into()],
+            3 => vec!["X=1/0".into(), "CONT".into()],
+            4 => vec!["RUN".into(), "CONT".into()],
+            _ => vec![],
+        };
         for k in ks {
             let mut v = vec![k.to_string()];
             v.extend(lines.iter().cloned());
+            if !pre.is_empty() && k % 3 == 0 {
+                v.extend(pre.iter().cloned());
+            }
             emit(w, "C13", "intr", &v, &p.replies);
         }
         // STOP placed at every line: CONT continues as if it were not there
